@@ -749,3 +749,16 @@ package mail
 //@ at mail.msgWriter.writePart mail.msgWriter.writeBody#1 before assert[C01:encoding-announced-is-applied] arg2 == part.encoding && arg1 == part.writeFunc
 //@ at mail.msgWriter.addFiles mail.msgWriter.writeBody#1 before assert[C01:producer-of-this-file] arg1 == file.Writer
 //@ at mail.msgWriter.writeBody mail.msgWriter.writeBody.writeFunc#2 before assert[C01:encoder-matches] (encoding == "quoted-printable" ==> arg0.enckind == 1) && (encoding == "base64" ==> (arg0.enckind == 2 && arg0.wtarget == lineBreaker && lineBreaker.out == writeBuffer))
+
+// ---------------------------------------------------------------------------
+// C18  (header part) folded header lines: at most 78 characters unless the line is a single token
+//
+// buffer.lcol / buffer.lstate (ghost, see strings.Builder.WriteString): the fold in writeHeader may only be
+// written - and the field may only end - when the current line has at most 78 characters or holds one token.
+// The key invariant is lcol + charLength == 74: charLength is what is left of a 74-character line.
+//@ pred hkeyok(key string) = len(key) >= 1 && len(key) <= 70 && nocrlf(key) && noblank(key)
+//@ func mail.msgWriter.writeHeader (key, values)
+//@   requires[C18:values] valsafe(values)
+//@   loop 1 invariant[C18:line] hkeyok(key) ==> (wordsafe(words) && (forall j :: 0 <= j && j < len(words) ==> noblank(words[j])) && buffer.lcol + charLength == 74 && buffer.lcol >= 1 && (buffer.lcol > 74 ==> buffer.lstate == 1) && 0 <= rangeindex + 1)
+//@ at mail.msgWriter.writeHeader strings.Builder.WriteString#3 before assert[C18:header-line-length-at-fold] hkeyok(key) ==> (buffer.lcol <= 78 || buffer.lstate == 1)
+//@ at mail.msgWriter.writeHeader strings.Builder.String#1 before assert[C18:header-line-length] hkeyok(key) ==> (buffer.lcol <= 78 || buffer.lstate == 1)
